@@ -603,6 +603,12 @@ func c03Codec(c *core.Ctx, m *serverModel) {
 	for name, k := range m.Kinds {
 		c.Check(assigned[k], "C03.R7", "classifier/assigns/"+name, 0, "classifier can produce "+name, "no path of the request classifier assigns kind "+name+": requests of that kind sent by the client are never recognised by the server")
 	}
+	iteratorRequestImmutable(c, "C03.R7")
+}
+
+// iteratorRequestImmutable (C03.R7, C05.R6): requests captured by a returned
+// listing iterator are never written through.
+func iteratorRequestImmutable(c *core.Ctx, rule string) {
 	// requests captured by a returned iterator are never written through
 	for _, fn := range c.P.ModuleFunctions("ociclient") {
 		if fn.Parent() != nil || fn.Signature.Results().Len() != 1 || !isSeqType(fn.Signature.Results().At(0).Type()) {
@@ -650,9 +656,9 @@ func c03Codec(c *core.Ctx, m *serverModel) {
 				}
 			}
 			if bad != nil {
-				c.Fail("C03.R7", facts.FuncName(fn)+"/iterator-request-immutable", bad.Pos(), "the request captured by the returned iterator is written through: the second traversal of the same iterator starts from the previous traversal's position instead of the caller's arguments")
+				c.Fail(rule, facts.FuncName(fn)+"/iterator-request-immutable", bad.Pos(), "the request captured by the returned iterator is written through: the second traversal of the same iterator starts from the previous traversal's position instead of the caller's arguments")
 			} else {
-				c.OK("C03.R7", facts.FuncName(fn)+"/iterator-request-immutable", fn.Pos(), "the captured request is only copied, never written through")
+				c.OK(rule, facts.FuncName(fn)+"/iterator-request-immutable", fn.Pos(), "the captured request is only copied, never written through")
 			}
 		}
 	}
